@@ -518,7 +518,7 @@ ASSUMPTIONS = [
 
 def run(tier, seed):
     core.standard_run(PID, tier, seed, {
-        'model_vos': ['Node/Owners', 'Node/NetReg', 'Gen/Tables'], 'table_sections': ['c16'],
+        'model_vos': ['Node/Owners', 'Node/NetReg', 'Gen/Tables'], 'table_sections': ['c16', 'source_shape'],
         'preamble': PREAMBLE, 'run_fn': RUN_FN, 'in_type': IN_TYPE,
         'gen_case': gen_case,
         'impl_run': impl_run,
